@@ -14,6 +14,7 @@ spins is not stopped.  Callbacks are outside fragment F0; the wall-clock oracle 
 `cancel` stream reports it as a known finding.
 -/
 import Anko.Proofs.EvalPoll
+import Anko.Gen.ChanOps
 import Anko.Proofs.EvalCall
 
 set_option linter.unusedSectionVars false
@@ -132,5 +133,29 @@ theorem program_after_cancel (fuel : Nat) (p : Stmt) (s : St) (hc : s.cancelled 
   unfold runProgram
   rw [stmt_after_cancel fuel p s hc]
   simp [interrupted, St.poll, hd]
+
+/-! ### Blocking channel operations (facts regenerated from vm/*.go on every run) -/
+
+/-- Go's select, as far as cancellation is concerned: a goroutine parked in a select is runnable
+as soon as one of its cases is ready; a closed Done channel is always ready to receive. -/
+def selectEnabled (watchesCtx cancelled chanReady : Bool) : Bool := (watchesCtx && cancelled) || chanReady
+
+/-- A blocking operation that includes the ctx.Done() case wakes up once the context is
+cancelled, whatever the state of the script's channel and whatever the other goroutines do... -/
+theorem select_wakes_on_cancel (chanReady : Bool) : selectEnabled true true chanReady = true := by
+  simp [selectEnabled]
+
+/-- ... while one that does not may stay parked for ever. -/
+theorem bare_op_may_stay_blocked : selectEnabled false true false = false := rfl
+
+/-- Every place where the interpreter can block on a channel (send, receive expression, receive
+statement, for-in over a channel) is a reflect.Select whose first case receives from
+runInfo.ctx.Done(); there is no direct Value.Send / Value.Recv and no native channel operation
+outside such a select; every loop form and the statement dispatcher poll the context. -/
+theorem blocking_ops_watch_ctx :
+    Gen.ChanOps.bareReflectOps = [] ∧ Gen.ChanOps.nativeBlockingOps = [] ∧
+    Gen.ChanOps.selects.all (·.2) = true ∧ 4 ≤ Gen.ChanOps.selects.length ∧
+    (∀ f ∈ ["runSingleStmt", "runLoopStmt", "runForSliceStmt", "runForMapStmt", "runCForStmt", "invokeNilCoalescingOpExpr"],
+      f ∈ Gen.ChanOps.polls) := by decide
 
 end Anko.C02
